@@ -70,12 +70,12 @@ TStart ==
   /\ Is("IdAlloc") /\ pend.ev = "Call" /\ Adv
   /\ Chk(AllocLaw(E.id), "alloc")
   /\ StartP(pend.o, pend.k, pend.t, pend.ad, pend.tg, E.id)
-  /\ pend' = [ev |-> "none"] /\ started' = IF drv = "run" THEN started ELSE pend.o
+  /\ pend' = [ev |-> "none"] /\ started' = IF DrvAlive THEN started ELSE pend.o
   /\ UNCHANGED dead
 
 (* is_closed() as reported right after the call returned: true exactly when the driver is gone (absent on returns of
    stream starts, where the handle is inside the stream) *)
-ClosedOK == ("closed" \notin DOMAIN E) \/ (E.closed <=> (drv # "run"))
+ClosedOK == ("closed" \notin DOMAIN E) \/ (E.closed <=> ~DrvAlive)
 TRet ==
   /\ Is("Ret") /\ Adv /\ UNCHANGED <<pend, dead>>
   /\ Chk(ClosedOK, "closed")
@@ -166,6 +166,11 @@ TSrvSend == /\ Is("SrvSend") /\ Adv /\ Keep
 TSrvOrphan == Is("SrvOrphan") /\ Adv /\ Keep /\ SrvOrphan(E.id, E.typ) /\ tok' = E.tok
 TSrvGarbage == Is("SrvGarbage") /\ Adv /\ Keep /\ SrvGarbage
 TSrvClose == Is("SrvClose") /\ Adv /\ Keep /\ SrvClose(E.how)
+(* the peer stops reading / reads again; WBlocked is logged by the transport the first time a write finds the peer not
+   reading: the driver is now inside stream.send() and serves nothing else until the write completes (its DrvOp event) *)
+TSrvStall == Is("SrvStall") /\ Adv /\ Keep /\ SrvStall
+TSrvResume == Is("SrvResume") /\ Adv /\ Keep /\ SrvResume
+TWBlocked == Is("WBlocked") /\ Adv /\ Keep /\ DrvOpBegin
 (* what the scripted server decoded from the bytes it read: the request must be one the model put on the wire, of the
    same kind, and an AbandonRequest must name the ID the caller gave *)
 AppOfKind(k) == CASE k = "single" -> {0, 10, 14} [] k = "search" -> {3} [] k = "abandon" -> {16} [] k = "unbind" -> {2} [] OTHER -> {}
@@ -178,13 +183,13 @@ TTick == Is("Tick") /\ Adv /\ Keep /\ Chk(~TimerDue, "time") /\ TickCore /\ now'
 TQuiet == /\ Is("Quiet") /\ Adv /\ Keep /\ UNCHANGED vars
           /\ Chk(SetOfSeq(E.used) \subseteq used, "quiet:more") /\ Chk(used \subseteq SetOfSeq(E.used) /\ E.last = last, "quiet:less")
 TClientClosed == /\ Is("ClientClosed") /\ Adv /\ Keep /\ UNCHANGED vars
-                 /\ Chk((drv # "run" => (E.shutdown \/ E.dropped)), "close")
+                 /\ Chk((~DrvAlive => (E.shutdown \/ E.dropped)), "close")
 TIgnored == (Is("IdRelease")) /\ Adv /\ Keep /\ UNCHANGED vars
 
 Explained ==
   \/ TSetLast \/ TCall \/ TStart \/ TRet \/ TCallNext \/ TRetNext \/ TInner \/ TFinish \/ TDropHandles
   \/ TDrvScrub \/ TDrvScrubX \/ TDrvOp \/ TDrvRecv \/ TDrvExit
-  \/ TSrvGot \/ TSrvSend \/ TSrvOrphan \/ TSrvGarbage \/ TSrvClose \/ TTick \/ TQuiet \/ TClientClosed \/ TIgnored
+  \/ TSrvGot \/ TSrvSend \/ TSrvOrphan \/ TSrvGarbage \/ TSrvClose \/ TSrvStall \/ TSrvResume \/ TWBlocked \/ TTick \/ TQuiet \/ TClientClosed \/ TIgnored
 
 (* Hang / Panic are observations no action explains *)
 TUnexplained ==
